@@ -82,6 +82,29 @@ def c27(idx: Index, rep: Report, tier: str) -> None:
     rep.count("read_set_contributions", n)
     rep.require_min(rule, "read_set_contributions", 3)
     class_level_mutables(idx, rep, "C27.4 T11 no-class-level-cache", ("unified_planning.plans",))
+    # every fluent occurrence an action instance reads is registered as required: inside the loop over the lifted
+    # fluents the `required.add(…)` depends on no test except those that reject the plan (the other branch raises)
+    from ..rules import raising_branch
+
+    rule6 = "C27.6 T2 every-read-fluent-is-registered"
+    n6 = 0
+    for nd, c in cfg_nodes_with_call(cfg, "add"):
+        if not (c.args and isinstance(c.args[0], ast.Call) and any(isinstance(x, ast.Call) and call_name(x) == "substitute" for x in ast.walk(c.args[0]))):
+            continue
+        loops = [l for l in cfg.nodes if l.kind == "for" and any(x is nd.ast for st in l.owner.body for x in ast.walk(st))]
+        if not loops:
+            continue
+        inner = max(loops, key=lambda l: l.owner.lineno)
+        n6 += 1
+        filt = []
+        for t, o in guards_dominating(cfg, nd):
+            if t.kind != "test" or not any(x is t.ast for st in inner.owner.body for x in ast.walk(st)):
+                continue
+            if not raising_branch(cfg, t, not o):
+                filt.append(t)
+        rep.check(not filt, rule6, "a fluent read by the action instance is always added to its required fluents", f.loc(c), construct=norm(c)[:60] + ("" if not filt else f" only if `{norm(filt[0].ast)[:50]}`"), detail="" if not filt else "some reads are not registered (filtered by a property of the fluent): the instance gets no ordering edge to the writers of that fluent — e.g. one written only through conditional effects — and a linearisation of the partial-order plan puts the reader before the writer", function=f.qualname)
+    rep.count("read_registrations", n6)
+    rep.require_min(rule6, "read_registrations", 1)
     # reader keys and writer keys are normalised the same way
     rule5 = "C27.5 T7 reader-and-writer-keys-same-normal-form"
     from ..dataflow import reaching_defs, def_value
@@ -346,6 +369,31 @@ def c28(idx: Index, rep: Report, tier: str) -> None:
     rep.count("increase_decrease_pairs", nt)
     rep.require_min(rule_t, "increase_decrease_pairs", 3)
 
+    # end-time expressions are read *after* the start effects: whatever is derived from an end effect's value or
+    # condition and is tested or compared with the action's preconditions has gone through
+    # `.substitute(start_effects_subs)` — also in the test that decides to drop a redundant effect
+    rule_s = "C28.7 def-use end-expressions-are-read-after-the-start-effects"
+    comp = idx.func("engines.compilers.timed_to_sequential.TimedToSequential._compile")
+    ccfg = cfg_of(comp)
+    cdu = DefUse(ccfg)
+    ns = 0
+    for nd in ccfg.nodes:
+        if nd.kind != "test" or nd.ast is None:
+            continue
+        for x in ast.walk(nd.ast):
+            if not (isinstance(x, ast.Name) and isinstance(x.ctx, ast.Load)):
+                continue
+            src = cdu.sources(x, nd)
+            from_end = [c for c in src if len(c) >= 2 and c[0] == "oee" and c[1] in ("value", "condition")]
+            if not from_end:
+                continue
+            ns += 1
+            ok = any(len(c) >= 3 and c[0] == "oee" and c[2].rstrip("()") == "substitute" for c in src)
+            rep.check(ok, rule_s, f"`{x.id}` is tested with the start effects applied", comp.loc(nd.ast), construct=f"{norm(nd.ast)[:60]}: {x.id} " + ("derives from oee.….substitute(…)" if ok else "derives from the end effect without substitution"), detail="" if ok else "the decision (e.g. to drop an end effect that a precondition already implies) is taken on the expression as written, before the start effects: when a start effect changes a fluent of that expression the effect is dropped although it writes a different value, and the compiled plan maps back to a plan the validator rejects", function=comp.qualname)
+            break
+    rep.count("end_expression_tests", ns)
+    rep.require_min(rule_s, "end_expression_tests", 2)
+
     rule_g = "C28.6 def-use state-lookups-take-ground-expressions"
     ng = state_lookups_ground(rep, rule_g, tts)
     rep.count("state_lookups", ng)
@@ -581,6 +629,19 @@ def c25(idx: Index, rep: Report, tier: str) -> None:
     removed from the filter when it is popped."""
     rule = "C25.4 requeue-not-filtered"
     cls = idx.cls("model.delta_stn.DeltaSimpleTemporalNetwork")
+    # every arc that enters the network is propagated: from the store of the new arc no path leaves `add` without
+    # the incremental check (which lowers the distances of everything reachable and detects a negative cycle)
+    rule5 = "C25.5 T2 every-new-arc-is-propagated"
+    addf = cls.methods["add"]
+    acfg = cfg_of(addf)
+    stores = [nd for nd in acfg.nodes if isinstance(nd.ast, ast.Assign) and isinstance(nd.ast.targets[0], ast.Subscript) and norm(nd.ast.targets[0].value) == "self._constraints"]
+    checks = {nd for nd, c in cfg_nodes_with_call(acfg, "_inc_check")}
+    if not stores or not checks:
+        raise AnalysisError(f"{rule5}: add() no longer stores an arc / calls _inc_check")
+    for st in stores:
+        w = acfg.path_avoiding(st, acfg.exit, checks)
+        rep.check(w is None, rule5, "a stored arc is followed by the incremental check on every path", addf.loc(st.ast), construct=norm(st.ast)[:60] + (" … self._inc_check(…)" if w is None else " — a path returns without _inc_check"), detail="" if w is None else "an arc is added without propagating it: the distances of the events reachable from its target are not lowered (the reported model violates earlier constraints) and a negative cycle closed by this arc is not detected (an inconsistent network is reported consistent)", function=addf.qualname, path=path_text(w) if w else None)
+    rep.count("arc_stores", len(stores))
     n = 0
     for m in cls.methods.values():
         pops = [c for c in walk_no_nested(m.node) if isinstance(c, ast.Call) and isinstance(c.func, ast.Attribute) and c.func.attr in ("popleft", "pop") and isinstance(c.func.value, ast.Name)]
@@ -1893,7 +1954,84 @@ def quantified_effects_accumulate(idx: Index, rep: Report, rule: str) -> None:
     rep.require_min(rule, "expansion_loops", 1)
 
 
+def running_value_lookup_order(idx: Index, rep: Report, rule: str) -> None:
+    """The value an increase / decrease starts from: what an earlier instance of the *same* (quantified) effect
+    produced, else what an earlier effect of the same happening produced, else the state. The statements of
+    _apply_effect that bind the running value are interpreted on the four cases (in the instance map or not) x (in the
+    happening's updates or not) with distinguishable values."""
+    f = idx.func("engines.plan_validator.TimeTriggeredPlanValidator._apply_effect")
+    params = f.params()
+    # the local map the instances' results are stored in, and the map of earlier effects (a parameter)
+    stores = [a for a in walk_no_nested(f.node) if isinstance(a, ast.Assign) and isinstance(a.targets[0], ast.Subscript) and isinstance(a.targets[0].value, ast.Name)]
+    local_maps = sorted({a.targets[0].value.id for a in stores if a.targets[0].value.id not in params})
+    if not local_maps:
+        raise AnalysisError(f"{rule}: _apply_effect no longer collects the instances' results in a local map")
+    res_map = local_maps[0]
+    # the running value: the name the Minus/Plus of the decrease / increase is built from
+    run = None
+    for c in walk_no_nested(f.node):
+        if isinstance(c, ast.Call) and call_name(c) in ("Minus", "Plus") and c.args and isinstance(c.args[0], ast.Name):
+            run = c.args[0].id
+    if run is None:
+        raise AnalysisError(f"{rule}: the increase / decrease of _apply_effect is no longer Plus/Minus(<running value>, …)")
+
+    def block_of(stmts):
+        for i, st in enumerate(stmts):
+            if any(isinstance(a, ast.Assign) and any(isinstance(t, ast.Name) and t.id == run for t in a.targets) for a in ast.walk(st)):
+                inner = None
+                for fld in ("body", "orelse"):
+                    sub = getattr(st, fld, None)
+                    if isinstance(st, (ast.For, ast.While, ast.With, ast.Try)) or (isinstance(st, ast.If) and not any(isinstance(t, ast.Name) and t.id == run for a in [st] for t in [])):
+                        pass
+                # descend while exactly one compound statement contains every binding and it is not an `if` that
+                # itself decides the binding (an if/elif chain over the maps is part of the fragment)
+                holders = [s2 for s2 in stmts if any(isinstance(a, ast.Assign) and any(isinstance(t, ast.Name) and t.id == run for t in a.targets) for a in ast.walk(s2))]
+                if len(holders) == 1 and isinstance(holders[0], (ast.For, ast.While, ast.With, ast.Try)):
+                    return block_of(holders[0].body)
+                if len(holders) == 1 and isinstance(holders[0], ast.If):
+                    h = holders[0]
+                    in_test = {x.id for x in ast.walk(h.test) if isinstance(x, ast.Name)}
+                    if not ({res_map} | set(params)) & in_test or not any(n_ in in_test for n_ in (res_map, "updates")):
+                        for fld in ("body", "orelse"):
+                            sub = getattr(h, fld)
+                            if any(isinstance(a, ast.Assign) and any(isinstance(t, ast.Name) and t.id == run for t in a.targets) for s3 in sub for a in ast.walk(s3)):
+                                other = h.orelse if fld == "body" else h.body
+                                if not any(isinstance(a, ast.Assign) and any(isinstance(t, ast.Name) and t.id == run for t in a.targets) for s3 in other for a in ast.walk(s3)):
+                                    return block_of(sub)
+                first = stmts.index(holders[0])
+                last = stmts.index(holders[-1])
+                return stmts[first : last + 1]
+        return None
+
+    frag = block_of(f.node.body)
+    if not frag:
+        raise AnalysisError(f"{rule}: the statements binding `{run}` were not found")
+    upd_param = next((p_ for p_ in params if p_ == "updates"), None) or next((p_ for p_ in params if "update" in p_), None)
+    if upd_param is None:
+        raise AnalysisError(f"{rule}: _apply_effect no longer receives the happening's updates")
+    fn = ast.FunctionDef(name="_frag", args=ast.arguments(posonlyargs=[], args=[], kwonlyargs=[], kw_defaults=[], defaults=[]), body=list(frag), decorator_list=[])
+    interp = _OrderInterp(fn)
+    n = 0
+    key_names = sorted({norm(a.targets[0].slice) for a in stores if a.targets[0].value.id == res_map and isinstance(a.targets[0].slice, ast.Name)})
+    key = key_names[0] if key_names else "g_fluent"
+    for in_res in (True, False):
+        for in_upd in (True, False):
+            n += 1
+            env = {key: "g", res_map: ({"g": "FROM-INSTANCES"} if in_res else {}), upd_param: ({"g": "FROM-HAPPENING"} if in_upd else {}), "state": _Stub("state", get_value=lambda k: "FROM-STATE")}
+            want = "FROM-INSTANCES" if in_res else "FROM-HAPPENING" if in_upd else "FROM-STATE"
+            try:
+                interp._block(list(frag), env)
+                got = env.get(run)
+            except (_OrderInterp.Unsupported, _Returned, _Raised, KeyError) as ex:
+                rep.inconclusive(rule, f"the lookup of `{run}` is not interpretable ({type(ex).__name__}: {ex})", f.loc(frag[0]), function=f.qualname)
+                continue
+            rep.check(got == want, rule, f"running value when the fluent is {'in' if in_res else 'not in'} the instance map and {'in' if in_upd else 'not in'} the happening's updates", f.loc(frag[0]), construct=f"{run} <- {got} (expected {want})", detail="" if got == want else "an instance of a quantified increase / decrease restarts from the value of an earlier *effect* although an earlier *instance* of the same effect already changed the fluent: only the last instance counts, and the time-triggered validator reaches another numeric state than the sequential one for the same action", function=f.qualname)
+    rep.count("lookup_cases", n)
+    rep.require_min(rule, "lookup_cases", 4)
+
+
 def c04(idx: Index, rep: Report, tier: str) -> None:
+    running_value_lookup_order(idx, rep, "C04.6 T15 running-value-lookup-order")
     from .generic import delegate
 
     if delegate(idx, rep, tier, "C01", ("C01.1",), "the sequential side of the comparison is the simulator's successor function") < 1:
@@ -2634,6 +2772,31 @@ def c16(idx: Index, rep: Report, tier: str) -> None:
 
     if delegate(idx, rep, tier, "C14", ("C14.3",), "a node enters the hash-consing table only after it was validated") < 1:
         raise AnalysisError("C16: the delegated create_node clause vanished")
+    # canonical numeric literals: whatever the spelling of the literal (int, float, Fraction, str), an integral value is
+    # returned as an int. Every return of the helper is an int(…) conversion, a `.numerator`, or a value for which
+    # `denominator == 1` is known to be false on that path
+    from ..rules2 import path_facts
+
+    rule4 = "C16.4 T2 integral-literals-become-ints"
+    unc = idx.func("model.expression.uniform_numeric_constant")
+    ucfg = cfg_of(unc)
+    n4 = 0
+    for nd in ucfg.nodes:
+        if nd.kind != "return" or nd.ast.value is None:
+            continue
+        n4 += 1
+        v = nd.ast.value
+        if isinstance(v, ast.Call) and call_name(v) == "int":
+            ok, how = True, "int(…)"
+        elif isinstance(v, ast.Attribute) and v.attr == "numerator":
+            ok, how = True, ".numerator"
+        else:
+            facts = path_facts(ucfg, nd)
+            ok = isinstance(v, ast.Name) and (f"{v.id}.denominator == 1", False) in facts
+            how = "denominator == 1 excluded" if ok else "may be a Fraction with denominator 1"
+        rep.check(ok, rule4, "an integral value is never returned as a Fraction", unc.loc(nd.ast), construct=f"{norm(nd.ast)[:50]}: {how}", detail="" if ok else "a literal whose value is integral but whose spelling int() rejects ('2.0', '6/3', 2.0 on some paths) is returned as Fraction(2, 1): Int(2) and Real(2/1) are different nodes, so `x + 2` and `x + '2.0'` are no longer the same expression and GE/LE mirroring, constant folding and equality of expressions diverge", function=unc.qualname)
+    rep.count("literal_returns", n4)
+    rep.require_min(rule4, "literal_returns", 3)
     rule = "C16.3 T11 create_node-called-by-the-manager-only"
     em = idx.cls("model.expression.ExpressionManager")
     n = 0
@@ -2671,6 +2834,10 @@ def c24(idx: Index, rep: Report, tier: str) -> None:
     registered in the owner's tables (the field itself, or `table.setdefault(timing, …)`): a copy or a throw-away
     container (`table.get(timing) or {}`) makes the recorded assignment disappear, and later conflicts with it are
     accepted or rejected depending on the insertion order."""
+    from .generic import delegate
+
+    if delegate(idx, rep, tier, "C22", ("C22.4",), "the conflict bookkeeping of a copy must be its own: sets shared with the original record the other object's effects") < 1:
+        raise AnalysisError("C24: the delegated clone clause vanished")
     from ..dataflow import reaching_defs, def_value
 
     rule = "C24.5 T11 bookkeeping-is-the-registered-container"
@@ -2827,6 +2994,30 @@ def c22(idx: Index, rep: Report, tier: str) -> None:
 def c23(idx: Index, rep: Report, tier: str) -> None:
     """The parameters of an action instance are checked by ActionInstance.__init__ only; nothing outside the class
     may write its private fields (building an instance by copy + field assignment skips the check)."""
+    # the tables of stored values (explicit initial values, per-fluent and per-type defaults) are the model's own
+    # objects: created empty in the constructor and filled entry by entry with checked values — never bound to a
+    # container the caller handed in (and still owns, or that is a shared default argument)
+    rule6 = "C23.6 T11 stored-value-tables-are-owned"
+    n6 = 0
+    for cq in ("model.mixins.fluents_set.FluentsSetMixin", "model.mixins.initial_state.InitialStateMixin"):
+        ci = idx.cls(cq)
+        for mname, mf in ci.methods.items():
+            params = set(mf.params()) - {"self"}
+            for a in walk_no_nested(mf.node):
+                tgs = a.targets if isinstance(a, ast.Assign) else [a.target] if isinstance(a, ast.AnnAssign) and a.value is not None else []
+                if not any(isinstance(t, ast.Attribute) and norm(t.value) == "self" and t.attr.startswith("_") for t in tgs):
+                    continue
+                fld = [t.attr for t in tgs if isinstance(t, ast.Attribute)][0]
+                if not any(k in fld for k in ("default", "initial_value")):
+                    continue
+                n6 += 1
+                v = a.value
+                fresh = isinstance(v, (ast.Dict, ast.List, ast.Set, ast.DictComp, ast.ListComp, ast.SetComp, ast.Constant)) or (isinstance(v, ast.Call) and call_name(v) in ("dict", "list", "set", "OrderedDict", "copy", "deepcopy"))
+                borrowed = sorted({x.id for x in ast.walk(v) if isinstance(x, ast.Name) and x.id in params}) if not fresh else []
+                ok = fresh or not borrowed
+                rep.check(ok, rule6, f"{ci.name}.{mname}: self.{fld} is the model's own container", mf.loc(a), construct=f"self.{fld} = {norm(v)[:50]}" + ("" if ok else f" — the caller's `{borrowed[0]}`"), detail="" if ok else f"the table is the very object the caller passed (or the shared default argument): entries the caller adds to it later are never checked or promoted and are read by add_fluent / initial_value as stored defaults, and two problems built from one mapping share their defaults", function=mf.qualname)
+    rep.count("stored_table_bindings", n6)
+    rep.require_min(rule6, "stored_table_bindings", 3)
     rule = "C23.5 T11 action-instance-fields-written-by-the-class-only"
     ai = idx.cls("plans.plan.ActionInstance")
     fields = {t.attr for m in ai.methods.values() for a in walk_no_nested(m.node) if isinstance(a, (ast.Assign, ast.AnnAssign)) for t in (a.targets if isinstance(a, ast.Assign) else [a.target]) if isinstance(t, ast.Attribute) and norm(t.value) == "self" and t.attr.startswith("_")}
